@@ -7,6 +7,7 @@ import (
 	"sort"
 	"strconv"
 	"strings"
+	"sync"
 	"testing"
 
 	"github.com/zerx-lab/wordZero/pkg/document"
@@ -18,7 +19,7 @@ import (
 func TestMain(m *testing.M) {
 	document.SetGlobalLevel(document.LogLevelSilent)
 	debug.SetGCPercent(400) // the library compiles its regular expressions on every call: mostly short-lived garbage
-	kit.TestMain(m, 15000, 300000)
+	kit.TestMain(m, 13000, 300000)
 }
 
 // openKF: ids listed open: for C16 in KNOWN_FINDINGS.txt (read once; steers which shapes the generator bounds).
@@ -249,9 +250,29 @@ func (c *Case) templateData(rev bool) *document.TemplateData {
 		names = append(names, k)
 	}
 	for _, k := range order(names) {
-		d.SetImageFromData(k, c.Data.Images[k].Bytes(), nil)
+		d.SetImageFromData(k, imgBytes(c.Data.Images[k]), nil)
 	}
 	return d
+}
+
+// imgBytes: the encoded image (encoded once per distinct image; a case is rendered several times).
+var (
+	imgCache = map[gen.Img][]byte{}
+	imgMu    sync.Mutex
+)
+
+func imgBytes(im gen.Img) []byte {
+	imgMu.Lock()
+	defer imgMu.Unlock()
+	if b, ok := imgCache[im]; ok {
+		return append([]byte(nil), b...)
+	}
+	b := im.Bytes()
+	if len(imgCache) > 4096 {
+		imgCache = map[gen.Img][]byte{}
+	}
+	imgCache[im] = b
+	return append([]byte(nil), b...)
 }
 
 // renders: how often the case is rendered. The result of a render must not depend on anything but the template
@@ -644,6 +665,37 @@ func describe(res *kit.Result, c *Case, ip *interp, exps []string) {
 	lab(ip.absentCond, "cond:absent")
 	lab(ip.elseTaken, "else:taken")
 	lab(ip.elseTakenLoop, "else:taken-in-loop")
+	for k := range ip.condSeen {
+		res.Label("loopcond:" + k)
+	}
+	lab(ip.maxItems >= 10, "list:10+items")
+	lab(ip.maxItems >= 17, "list:17+items")
+	lab(ip.maxItems >= 65, "list:65+items")
+	lab(ip.itemsOut >= 100, "out:100+loop-bodies")
+	lab(len(c.Children) >= 3, "chain:4+")
+	lab(len(c.Base) >= 12, "tpl:12+parts")
+	nblk := 0
+	for _, n := range c.Base {
+		if n.K == KBlock {
+			nblk++
+		}
+	}
+	lab(nblk >= 10, "tpl:10+blocks")
+	wideItem, longLit := false, false
+	for _, l := range c.Data.Lists {
+		for _, it := range l {
+			if it.T == "m" && len(it.M) > 8 {
+				wideItem = true
+			}
+		}
+	}
+	c.walk(func(n Node, _ int, _ bool) {
+		if n.K == KLit && len(n.S) >= 70 {
+			longLit = true
+		}
+	})
+	lab(wideItem, "item:9+fields")
+	lab(longLit, "lit:70+chars")
 	lab(ip.nestedMissing, "nested:list-field-missing")
 	lab(ip.nestedAbsent, "nested:list-field-missing-no-lists")
 	lab(c.nestedUsesLoopContext(), "nested:uses-loop-context")
@@ -855,6 +907,17 @@ func fixedCases() []Case {
 			Children: [][]Override{{{Name: "块名", Body: []Node{{K: KLit, S: "子模板内容 "}, {K: KVar, S: "title"}}}}, {{Name: "side bar", Body: []Node{{K: KLit, S: "side bar of the grandchild"}}}}},
 			Names:    []string{"基础模板", "销售 报告", "sales.v2"}, Seq: []int{1, 0},
 			Data: Data{Vars: map[string]Val{"title": s("Q3")}}},
+		// conditions inside a loop over item fields of every type the documents list for them (bool, string, int,
+		// int64, float64): the empty / zero value selects the else branch (or nothing), every other value the first
+		{Base: []Node{{K: KEach, S: "items", A: []Node{{K: KField, S: "label"}, {K: KLit, S: ":"}, {K: KIf, S: "amount", A: []Node{{K: KLit, S: "in("}, {K: KField, S: "amount"}, {K: KLit, S: ")"}}, Else: true, B: []Node{{K: KLit, S: "out"}}},
+			{K: KIf, S: "active", A: []Node{{K: KLit, S: "+"}}}, {K: KLit, S: ";\n"}}}},
+			Data: Data{Lists: map[string][]Val{"items": {
+				{T: "m", M: map[string]Val{"label": s("a"), "amount": {T: "i", S: "3"}, "active": {T: "i", S: "1"}}}, {T: "m", M: map[string]Val{"label": s("b"), "amount": {T: "i", S: "0"}, "active": {T: "i", S: "0"}}},
+				{T: "m", M: map[string]Val{"label": s("c"), "amount": {T: "l", S: "7"}, "active": {T: "l", S: "-1"}}}, {T: "m", M: map[string]Val{"label": s("d"), "amount": {T: "l", S: "0"}, "active": {T: "l", S: "0"}}},
+				{T: "m", M: map[string]Val{"label": s("e"), "amount": {T: "f", S: "2.5"}, "active": {T: "f", S: "0.001"}}}, {T: "m", M: map[string]Val{"label": s("f"), "amount": {T: "f", S: "0"}, "active": {T: "f", S: "0"}}},
+				{T: "m", M: map[string]Val{"label": s("g"), "amount": {T: "f", S: "-1.5"}, "active": s("yes")}}, {T: "m", M: map[string]Val{"label": s("h"), "amount": s(""), "active": s("")}},
+				{T: "m", M: map[string]Val{"label": s("i"), "amount": s("n/a"), "active": {T: "b", B: true}}}, {T: "m", M: map[string]Val{"label": s("j"), "amount": {T: "b"}, "active": {T: "b"}}},
+				{T: "m", M: map[string]Val{"label": s("k")}}}}}},
 		// numbers of every documented type at the ends of their ranges, as variable, item field and item
 		{Base: []Node{{K: KVar, S: "qty"}, {K: KLit, S: " / "}, {K: KVar, S: "code"}, {K: KLit, S: " / "}, {K: KVar, S: "price"}, {K: KLit, S: " / "}, {K: KVar, S: "memo"}, {K: KLit, S: "\n"},
 			{K: KEach, S: "rows", A: []Node{{K: KField, S: "colA"}, {K: KLit, S: "="}, {K: KField, S: "colB"}, {K: KLit, S: ";"}}}, {K: KLit, S: "\n"},
@@ -869,11 +932,11 @@ func TestC16(t *testing.T) {
 	openKF = kit.OpenFindings("C16")
 	kit.Main(t, kit.Spec[Case]{
 		ID: "C16", Level: "exploration",
-		Rule: "template family drawn as ASTs from the documented grammar: a chain of 1-3 levels (literals incl. newlines/braces, variables, if / if-else, each with fields/this/@index/@first/@last/inner if/nested each to depth 3, blocks + extends, image placeholders alone on a line and 1-3 of them - mostly the same image again - inside a line of literals and variables) and 0-2 sibling templates that extend any template of the family and redefine other subsets of its blocks; typed data (strings incl. brace-bearing and multi-line; int and int64 over their whole range with the 32-, 53- and 64-bit boundaries; float64 over its whole range - short decimals, many digits, whole numbers, both zeros, 2^53..2^63 and beyond, tiny, NaN, infinities; bool, nil; conditions true/false/absent; lists of maps / scalars, empty, absent); names: block and template names are quoted strings (identifier-like, or - about half of the families - CJK, blanks, dots, dashes, digits first, punctuation; defined in the base and redefined under the same name below it), variable / condition / list / field names are ASCII words incl. a digit or underscore first, digits only, one character, names differing by case only; serialised to text, loaded on a fresh engine by a drawn load schedule (optional history: child before its base, an earlier version of a template later replaced, identical re-loads; then always the whole chain base-to-child with the final sources, then the siblings); then a drawn sequence of 0-3 renders of any templates of the family (child then base, sibling then sibling, ...) followed by the render of the last chain template (several times, data set in two orders, when a value names another supplied name) - EVERY render is compared with the reference text of the template rendered; values with braces and whole directive tokens (placeholders naming other supplied variables, conditions, lists, fields, unknown names; {{/if}}, {{else}}, {{/each}}, ...) occur in every position and are judged exactly outside the (position, directive kind) classes of the open re-scan findings; non-trivial = >=2 directive kinds among {var, if, each, block, image} and (a loop over >=2 items or a conditional with an else branch) and the data has both a present and an absent name used by the template; distinct = distinct (AST skeleton incl. list names, literal classes, sibling overrides and render sequence, entry point, per-name data type/presence/list-length vector, set of schedule classes)",
+		Rule: "template family drawn as ASTs from the documented grammar: a chain of 1-3 (4% of the families: 4-6) levels (literals incl. newlines/braces, variables, if / if-else, each with fields/this/@index/@first/@last/inner if - over a flag or an ordinary field of the item that holds a bool or, mostly, a value of any documented condition type: bool, string, int, int64, float64, empty / zero in nearly half of the draws, negative, huge, fractional otherwise - /nested each to depth 3, blocks + extends, image placeholders alone on a line and 1-3 of them - mostly the same image again - inside a line of literals and variables) and 0-2 sibling templates that extend any template of the family and redefine other subsets of its blocks; typed data (strings incl. brace-bearing and multi-line; int and int64 over their whole range with the 32-, 53- and 64-bit boundaries; float64 over its whole range - short decimals, many digits, whole numbers, both zeros, 2^53..2^63 and beyond, tiny, NaN, infinities; bool, nil; conditions true/false/absent; lists of maps / scalars, empty, absent, of 1-4 items and - 3% of the top-level lists - of 10, 11, 12, 17, 33 or 65 items; items with up to 13 fields; names that extend another name by a digit: qty1 / qty10, c1 / c10, img1 / img10; now and then a family of 10-12 blocks (b1 / b10 / b11 among the names), a base template of 12-24 top-level parts and literals of 70-1500 characters); names: block and template names are quoted strings (identifier-like, or - about half of the families - CJK, blanks, dots, dashes, digits first, punctuation; defined in the base and redefined under the same name below it), variable / condition / list / field names are ASCII words incl. a digit or underscore first, digits only, one character, names differing by case only; serialised to text, loaded on a fresh engine by a drawn load schedule (optional history: child before its base, an earlier version of a template later replaced, identical re-loads; then always the whole chain base-to-child with the final sources, then the siblings); then a drawn sequence of 0-3 renders of any templates of the family (child then base, sibling then sibling, ...) followed by the render of the last chain template (several times, data set in two orders, when a value names another supplied name) - EVERY render is compared with the reference text of the template rendered; values with braces and whole directive tokens (placeholders naming other supplied variables, conditions, lists, fields, unknown names; {{/if}}, {{else}}, {{/each}}, ...) occur in every position and are judged exactly outside the (position, directive kind) classes of the open re-scan findings; non-trivial = >=2 directive kinds among {var, if, each, block, image} and (a loop over >=2 items or a conditional with an else branch) and the data has both a present and an absent name used by the template; distinct = distinct (AST skeleton incl. list names, literal classes, sibling overrides and render sequence, entry point, per-name data type/presence/list-length vector, set of schedule classes)",
 		Gen:  genCase, Run: run, Findings: findings, Fixed: fixedCases,
 		Assumptions: []string{
 			"names of variables, conditions, lists, item fields and images are pairwise distinct words over ASCII letters, digits and the underscore (what {{name}} is parsed as; a digit or underscore may come first) and none is this/else/index/first/last (the documents are silent on shadowing); block names and template names are quoted strings: any characters but the double quote, braces and line breaks, pairwise distinct",
-			"conditionals are not nested in conditionals; conditionals inside a loop test boolean fields of the current item only (string/number truthiness is not documented)",
+			"conditionals are not nested in conditionals; a conditional inside a loop tests a field of the current item whose value has one of the types the documents list for conditions (CHANGELOG: bool, string, int, int64, float64; empty and zero values are judged false): a bool is its value, a string is true unless empty, a number is true unless zero (both float zeros are zero), an absent field is false; strings of blanks only, the words false / 0 / no, NaN, nil, lists and maps are never tested (the documents do not say what they mean)",
 			"literal text never forms a directive: no literal token ends with '{' or starts with '}' except a lone brace placed directly around a directive; '{{ x }}' with inner blanks is literal text",
 			"values never complete a directive together with their surroundings: no value starts with '}' and every '}}' inside a value follows a character that cannot belong to a name; whole directive tokens inside a value are text",
 			"the engine history before the final base-to-child load of the chain carries no meaning (a load defines the named template anew); errors of history loads are ignored, the final loads must succeed",
@@ -892,6 +955,10 @@ func TestC16(t *testing.T) {
 			"image:inside-text-line": 0.02, "image:same-twice-on-line": 0.012,
 			"float:text-demanded-exactly": 0.05, "float:judged-by-parsing-back": 0.03, "float:negative-zero": 0.002, "float:whole-2^53..2^63": 0.005, "float:>=2^63": 0.002, "float:tiny": 0.002, "float:whole<2^53": 0.002,
 			"int:>=2^31-1": 0.03, "int:>=2^53-1": 0.015, "int:at-int64-bounds": 0.003,
+			"loopcond:bool:true": 0.01, "loopcond:bool:false": 0.01, "loopcond:string:true": 0.008, "loopcond:string:false": 0.008, "loopcond:int:true": 0.008, "loopcond:int:false": 0.008,
+			"loopcond:int64:true": 0.008, "loopcond:int64:false": 0.008, "loopcond:float64:true": 0.008, "loopcond:float64:false": 0.008, "loopcond:float64:-0": 0.002, "loopcond:int:negative": 0.004,
+			"loopcond:int64:negative": 0.004, "loopcond:float64:negative": 0.002, "list:10+items": 0.012, "list:17+items": 0.004, "list:65+items": 0.002, "chain:4+": 0.015, "item:9+fields": 0.05, "tpl:12+parts": 0.02, "tpl:10+blocks": 0.008,
+			"lit:70+chars":                 0.008,
 			"name:block-beyond-identifier": 0.12, "name:block-beyond-identifier-override-rendered": 0.08, "name:templates-beyond-identifier": 0.1, "name:word-beyond-identifier": 0.3},
 	})
 }
